@@ -77,6 +77,8 @@ def cases(rng, tier):
 		yield ('path', u'/'.join(rng.choice(alpha) for _ in range(rng.randrange(1, 6))))
 	for _ in range(n):
 		yield ('norm', gen_uri(rng))
+	for t_ in (u'http://h//', u'http://h///', u'HTTP://H////?q', u'https://h//#f', u'ftp://h//', u'http://h/.//', u'http://h//..'):
+		yield ('norm', t_)
 	for _ in range(n):
 		yield ('asg', gen_assignments(rng))
 	for _ in range(n):
